@@ -20,9 +20,34 @@ import (
 
 var errUnreachable = errors.New("c01 net: unreachable")
 
+// endpoint is the receiving side of one NodeHost. As with the TCP transport, once
+// ITransport.Close has returned no handler call is running or will be started
+// (NodeHost.Close tears the engine down right after it).
 type endpoint struct {
+	mu      sync.RWMutex
+	closed  bool
 	handler raftio.MessageHandler
 	chunks  raftio.ChunkHandler
+}
+
+// deliver hands a batch to the NodeHost unless its transport was closed.
+func (ep *endpoint) deliver(b pb.MessageBatch) bool {
+	ep.mu.RLock()
+	defer ep.mu.RUnlock()
+	if ep.closed {
+		return false
+	}
+	ep.handler(b)
+	return true
+}
+
+func (ep *endpoint) deliverChunk(c pb.Chunk) bool {
+	ep.mu.RLock()
+	defer ep.mu.RUnlock()
+	if ep.closed {
+		return false
+	}
+	return ep.chunks(c)
 }
 
 // network is one simulated network shared by the NodeHosts of one history.
@@ -130,6 +155,9 @@ func (t *netTransport) Close() error {
 		delete(t.net.eps, t.addr)
 	}
 	t.net.mu.Unlock()
+	t.ep.mu.Lock()
+	t.ep.closed = true
+	t.ep.mu.Unlock()
 	return nil
 }
 func (t *netTransport) GetConnection(ctx context.Context, target string) (raftio.IConnection, error) {
@@ -165,8 +193,11 @@ func (c *netConn) SendMessageBatch(batch pb.MessageBatch) error {
 	var cp pb.MessageBatch
 	pb.MustUnmarshal(&cp, data)
 	if d == 0 {
-		atomic.AddInt64(&n.delivered, 1)
-		ep.handler(cp)
+		if ep.deliver(cp) {
+			atomic.AddInt64(&n.delivered, 1)
+		} else {
+			atomic.AddInt64(&n.dropped, 1)
+		}
 		return nil
 	}
 	atomic.AddInt64(&n.delayed, 1)
@@ -177,15 +208,11 @@ func (c *netConn) SendMessageBatch(batch pb.MessageBatch) error {
 			return
 		}
 		// the endpoint may have been closed (host restart) in the meantime
-		n.mu.Lock()
-		cur := n.eps[c.target]
-		n.mu.Unlock()
-		if cur != ep {
+		if ep.deliver(cp) {
+			atomic.AddInt64(&n.delivered, 1)
+		} else {
 			atomic.AddInt64(&n.dropped, 1)
-			return
 		}
-		atomic.AddInt64(&n.delivered, 1)
-		ep.handler(cp)
 	})
 	return nil
 }
@@ -204,7 +231,7 @@ func (c *netSSConn) SendChunk(chunk pb.Chunk) error {
 	data := pb.MustMarshal(&chunk)
 	var cp pb.Chunk
 	pb.MustUnmarshal(&cp, data)
-	if !ep.chunks(cp) {
+	if !ep.deliverChunk(cp) {
 		return errUnreachable
 	}
 	return nil
